@@ -251,9 +251,12 @@ func (w *World) Apply(line string) (final string, result string) {
 		}
 		np := pod.DeepCopy()
 		np.Status.Phase = corev1.PodFailed
+		np.Status.Reason, np.Status.Message = "Evicted", "The node was low on resource: memory."
 		if w.Rng != nil && w.Rng.Intn(2) == 0 {
 			np.Status.Phase = corev1.PodSucceeded
+			np.Status.Reason, np.Status.Message = "", ""
 		}
+		np.Status.Conditions = podConditions(np.Status.Phase)
 		w.Kube.CoreV1().Pods(f[2]).Update(ctx, np, metav1.UpdateOptions{})
 		if o := guard(func() { w.Plugin.UpdatePod(pod.DeepCopy(), np.DeepCopy()) }); o != "ok" {
 			return line, o
@@ -295,6 +298,7 @@ func (w *World) Apply(line string) (final string, result string) {
 		}
 		np := pod.DeepCopy()
 		np.Status.Phase = corev1.PodRunning
+		np.Status.Conditions = podConditions(corev1.PodRunning)
 		w.Kube.CoreV1().Pods(f[2]).Update(ctx, np, metav1.UpdateOptions{})
 		return line, "ok"
 	case f[0] == "app" && len(f) == 6 && f[1] == "scale":
